@@ -60,6 +60,22 @@ func g2guardExcludes(g kit.Guard, isQ func(ssa.Value) bool, n int64) (excluded, 
 		}
 		cond, pol = u.X, !pol
 	}
+	// a small predicate function (one return of a comparison) applied to the quantity
+	if call, isCall := cond.(*ssa.Call); isCall {
+		if st := kit.CalleeOf(call).Static; st != nil && st.Blocks != nil && kit.IsRepoPkg(kit.FuncPkgPath(st)) {
+			rets := kit.Returns(st)
+			if len(rets) == 1 && len(rets[0].Results) == 1 {
+				for i, a := range call.Call.Args {
+					if i < len(st.Params) && isQ(g2stripConv(a)) {
+						prm := st.Params[i]
+						return g2guardExcludes(kit.Guard{Cond: kit.ReturnResult(rets[0], 0), Polarity: pol},
+							func(v ssa.Value) bool { return g2stripConv(v) == ssa.Value(prm) }, n)
+					}
+				}
+			}
+		}
+		return false, false
+	}
 	b, ok := cond.(*ssa.BinOp)
 	if !ok {
 		return false, false
@@ -203,6 +219,9 @@ func (u *g2ub) lenUB(v ssa.Value, fr *g2frame) []g2alt {
 		if k, ok := g2chunkWidth(x); ok {
 			return []g2alt{{n: k, origin: here}}
 		}
+		if k, ok := g2symLenBound(x, g2envOf(fr)); ok {
+			return []g2alt{{n: k, origin: here}}
+		}
 		var base []g2alt
 		if n, ok := g2arrayLen(x.X.Type()); ok {
 			base = []g2alt{{n: n, origin: here}}
@@ -271,6 +290,12 @@ func (u *g2ub) lenUB(v ssa.Value, fr *g2frame) []g2alt {
 		}
 		return out
 	case *ssa.Phi:
+		if k, ok := g2symLenBound(x, g2envOf(fr)); ok {
+			return []g2alt{{n: k, origin: here}}
+		}
+		if b, ok := u.appendLoopBound(x, fr); ok {
+			return b
+		}
 		var out []g2alt
 		for _, e := range x.Edges {
 			if e == v {
@@ -601,6 +626,16 @@ func (u *g2ub) paramUB(p *ssa.Parameter, fr *g2frame, asLen bool) []g2alt {
 // g2chunkWidth recognises s = X[lo:hi] with hi = min(lo+K, len(X)) in any of its forms
 // (if end > len {end = len}; builtin min; plain lo+K) and returns K.
 func g2chunkWidth(s *ssa.Slice) (int64, bool) {
+	if k, ok := g2chunkWidthSyntactic(s); ok {
+		return k, true
+	}
+	if _, isConst := kit.ConstInt(s.Low); s.Low == nil || isConst {
+		return 0, false
+	}
+	return g2symChunkWidth(s)
+}
+
+func g2chunkWidthSyntactic(s *ssa.Slice) (int64, bool) {
 	if s.Low == nil || s.High == nil {
 		return 0, false
 	}
@@ -952,4 +987,117 @@ func (u *g2ub) lenUBAt(v ssa.Value, fr *g2frame, at ssa.Instruction) []g2alt {
 		}
 	}
 	return g2dedup(alts)
+}
+
+// appendLoopBound bounds a slice that is built by a counted loop appending at most one element per
+// iteration (copy / map / filter loops): len <= len(initial) + number of iterations, where the
+// iterations are bounded by the length of the ranged slice or the loop limit.
+func (u *g2ub) appendLoopBound(phi *ssa.Phi, fr *g2frame) ([]g2alt, bool) {
+	h := phi.Block()
+	if _, isSlice := phi.Type().Underlying().(*types.Slice); !isSlice || len(h.Instrs) == 0 {
+		return nil, false
+	}
+	var inits []ssa.Value
+	back := 0
+	var grows func(v ssa.Value, d int) bool
+	grows = func(v ssa.Value, d int) bool {
+		if v == ssa.Value(phi) {
+			return true
+		}
+		if d > 4 {
+			return false
+		}
+		switch t := v.(type) {
+		case *ssa.Phi:
+			if !h.Dominates(t.Block()) {
+				return false
+			}
+			for _, e := range t.Edges {
+				if !grows(e, d+1) {
+					return false
+				}
+			}
+			return true
+		case *ssa.Call:
+			if kit.CalleeOf(t).Built != "append" || len(t.Call.Args) != 2 {
+				return false
+			}
+			// the extended slice is the loop variable itself (appending twice per iteration is not accepted)
+			if t.Call.Args[0] != ssa.Value(phi) {
+				return false
+			}
+			sl, ok := t.Call.Args[1].(*ssa.Slice)
+			if !ok {
+				return false
+			}
+			n, isArr := g2arrayLen(sl.X.Type())
+			return isArr && n == 1
+		}
+		return false
+	}
+	for i, e := range phi.Edges {
+		if h.Dominates(h.Preds[i]) {
+			back++
+			if !grows(e, 0) {
+				return nil, false
+			}
+		} else {
+			inits = append(inits, e)
+		}
+	}
+	if back == 0 || len(inits) == 0 {
+		return nil, false
+	}
+	// the loop limit: header condition "i+1 < len(src)" (range) or "i < n" with i counting from 0 by 1
+	ifi, ok := h.Instrs[len(h.Instrs)-1].(*ssa.If)
+	if !ok {
+		return nil, false
+	}
+	cmp, ok := ifi.Cond.(*ssa.BinOp)
+	if !ok || cmp.Op != token.LSS {
+		return nil, false
+	}
+	isCounter := func(v ssa.Value, init int64) bool {
+		p, ok := v.(*ssa.Phi)
+		if !ok || p.Block() != h || len(p.Edges) != 2 {
+			return false
+		}
+		okInit, okStep := false, false
+		for i, e := range p.Edges {
+			if h.Dominates(h.Preds[i]) {
+				if add, ok := e.(*ssa.BinOp); ok && add.Op == token.ADD && add.X == ssa.Value(p) {
+					if c, isc := kit.ConstInt(add.Y); isc && c == 1 {
+						okStep = true
+					}
+				}
+			} else if c, isc := kit.ConstInt(e); isc && c == init {
+				okInit = true
+			}
+		}
+		return okInit && okStep
+	}
+	counted := isCounter(cmp.X, 0)
+	if add, ok := cmp.X.(*ssa.BinOp); ok && add.Op == token.ADD {
+		if c, isc := kit.ConstInt(add.Y); isc && c == 1 && isCounter(add.X, -1) {
+			counted = true
+		}
+	}
+	if !counted {
+		return nil, false
+	}
+	trips := u.intUB(cmp.Y, fr)
+	var out []g2alt
+	for _, in := range inits {
+		var first []g2alt
+		if ms, ok := in.(*ssa.MakeSlice); ok {
+			first = u.intUB(ms.Len, fr)
+		} else {
+			first = u.lenUB(in, fr)
+		}
+		out = append(out, g2sum(first, trips)...)
+	}
+	if len(out) == 0 {
+		return nil, false
+	}
+	return g2dedup(out), true
 }
